@@ -207,6 +207,10 @@ def project_tree(node):
     return shape, leaves, nodes
 
 
+def _has_le_ge(toks):
+    return any(t[0] == "atom" and t[1]["op"] in ("<=", ">=") for t in toks)
+
+
 def leaf_equals(leaf, a):
     want = ("na",) if not a["op"] else ("lit", lit_py(a["lit"]))
     if leaf[0] != list(a["sel"]) or leaf[1] != a["op"] or leaf[2][0] != want[0]:
@@ -288,7 +292,7 @@ def _check_atom_row(r, agg):
     st, node = compiled(text)
     n = 0
     if st != "ok":
-        agg.add("compile_filter refuses a well-formed atom", {"kind": "grammar", "cause": "refused-well-formed", "op": a["op"] or "bare"},
+        agg.add("compile_filter refuses a well-formed atom", {"kind": "grammar", "cause": "refused-well-formed", "le_ge": a["op"] in ("<=", ">=")},
                 {"filter": text, "exc": node})
         return 0
     want = "T" if r["val"] else "F"
@@ -315,7 +319,7 @@ def _check_tree_row(r, agg):
         text = toks_text(toks)
         st, node = compiled(text)
         if st != "ok":
-            agg.add("compile_filter refuses a well-formed filter", {"kind": "grammar", "cause": "refused-well-formed", "rendering": rend},
+            agg.add("compile_filter refuses a well-formed filter", {"kind": "grammar", "cause": "refused-well-formed", "le_ge": _has_le_ge(toks)},
                     {"filter": text, "exc": node})
             continue
         shape, leaves, nodes = project_tree(node)
@@ -367,7 +371,7 @@ def _check_toks_row(r, agg):
     st, node = compiled(text)
     if (st == "ok") != r["ok"]:
         agg.add("compile_filter accepts/refuses differently from FilterLog!Parse",
-                {"kind": "grammar", "cause": "refused-well-formed" if r["ok"] else "accepted-ill-formed"},
+                {"kind": "grammar", "cause": "refused-well-formed" if r["ok"] else "accepted-ill-formed", "le_ge": _has_le_ge(r["toks"])},
                 {"filter": text, "spec_ok": r["ok"], "impl": st, "exc": node if st != "ok" else ""})
         return 1
     if st == "ok":
@@ -525,6 +529,8 @@ def _diagnose_filter(toks, ents):
 
 def _edge_cause(hasx, exc):
     if exc:
+        if exc.startswith("NoMatch"):
+            return "refused-well-formed"
         if "__bool__ should return bool" in exc:
             return "bitand-verdict-not-bool"
         return "inapplicable-comparison-raises" if hasx else "filter-raises"
@@ -568,9 +574,15 @@ def _replay_edges(edge_ids):
         for wrapped in (False, True):
             im = _Impl(W, wrapped)
             hist = []
+            deviated = False
             for pe in g.path_to(e["_s"]):
                 im.apply(pe["act"])
                 hist.append(pe["act"])
+                if im.view() != pe["obs"]["view"]:
+                    deviated = True     # reported where that edge is the last one of its own replay
+                    break
+            if deviated:
+                continue
             r = im.apply(e["act"])
             hist.append(e["act"])
             n += 1
@@ -1060,8 +1072,14 @@ def _b2(chk: Check, agg: Agg, traces, W, label):
     for ti, j, ev in rej:
         agg.add("B2 %s: trace rejected by FilterLog_Trace at event %d (%s)" % (label, j, ev.get("ev")),
                 {"kind": "b2-reject", "label": label, "event": ev.get("ev")}, {"rejected": common._clip(ev)})
+    first_walk_fail = {}
+    for (tid, i) in fails:
+        if traces[tid][i]["ev"] in ("Log", "SetFilter", "Pause", "Clear"):
+            first_walk_fail[tid] = min(i, first_walk_fail.get(tid, i))
     for (tid, i), fl in sorted(fails.items()):
         ev = traces[tid][i]
+        if ev["ev"] in ("Log", "SetFilter", "Pause", "Clear") and first_walk_fail[tid] != i:
+            continue        # the implementation's state already left the specification's: fallout of the first mismatch
         clause = fl[0]["fail"]
         if ev["ev"] == "Match":
             leaf_fails = [f for f in fl if f["fail"].startswith("Match.atom")]
@@ -1076,7 +1094,8 @@ def _b2(chk: Check, agg: Agg, traces, W, label):
                     {"filter": ev["text"], "entry": ev["e"], "short_circuit": ev["sc"], "stage": ev["stage"], "impl": ev["res"],
                      "impl_atoms": ev["leaf"], "exc": [x for x in ev["exc"] if x][:2], "failed_clauses": [f["fail"] for f in fl]})
         elif ev["ev"] == "Parse":
-            agg.add("B2 %s: %s" % (label, clause), {"kind": "grammar", "cause": {"Parse.accepts": "refused-well-formed" if not ev["ok"] else "accepted-ill-formed"}.get(clause, "grouping")},
+            agg.add("B2 %s: %s" % (label, clause), {"kind": "grammar", "cause": {"Parse.accepts": "refused-well-formed" if not ev["ok"] else "accepted-ill-formed"}.get(clause, "grouping"),
+                                                    "le_ge": _has_le_ge(ev["toks"])},
                     {"filter": ev["text"], "impl_ok": ev["ok"], "impl_shape": ev["shape"]})
         elif ev["ev"] == "Same":
             agg.add("B2 %s: %s" % (label, clause), {"kind": "preserve", "what": ev["what"], "cause": _preserve_cause(ev["before"], ev["after"])},
@@ -1090,7 +1109,9 @@ def _b2(chk: Check, agg: Agg, traces, W, label):
                 if flt is not None:
                     exc = _diagnose_filter(flt, [p["e"] for p in traces[tid][:i + 1] if p["ev"] == "Log"])
             feats = {"kind": "log-walk", "act": ev["ev"], "what": clause.split("[")[0], "cause": _edge_cause(hasx, exc)}
-            agg.add("B2 %s: %s" % (label, clause.split("[")[0]), feats,
+            if feats["cause"] == "refused-well-formed":
+                feats["le_ge"] = _has_le_ge(ev.get("toks", []))
+            agg.add("B2 walk: %s" % clause.split("[")[0], feats,
                     {"failed_clauses": [f["fail"] for f in fl], "exc": exc, "window": W,
                      "history": [_ev_text(p) for p in traces[tid][:i + 1]][-14:], "impl_view": ev.get("view")})
     return fails
